@@ -109,6 +109,19 @@ theorem scanNameHead_none {cs : List Char} (h : scanNameHead cs = none) :
 
 /-! ### the tail of a name -/
 
+theorem scanIndex_some {inBr : Char → Bool} {r x r' : List Char} (h : scanIndex inBr r = some (x, r')) :
+    r = x ++ ']' :: r' ∧ x ≠ [] ∧ (∀ c ∈ x, inBr c = true) ∧ x = r.takeWhile inBr := by
+  simp only [scanIndex] at h
+  split at h
+  · rename_i y ys r'' htw hdw
+    simp only [Option.some.injEq, Prod.mk.injEq] at h
+    obtain ⟨rfl, rfl⟩ := h
+    have hsplit := takeWhile_dropWhile inBr r
+    rw [htw, hdw] at hsplit
+    refine ⟨hsplit, by simp, ?_, htw.symm⟩
+    rw [← htw]; exact takeWhile_all inBr r
+  · cases h
+
 theorem scanNameTail_spec (inBr : Char → Bool) : ∀ (fuel : Nat) (cs t r : List Char), scanNameTail inBr fuel cs = (t, r) →
     cs = t ++ r ∧ NameTail inBr t := by
   intro fuel
@@ -133,19 +146,16 @@ theorem scanNameTail_spec (inBr : Char → Bool) : ∀ (fuel : Nat) (cs t r : Li
     · -- '[' :: r
       rename_i r0
       split at h
-      · rename_i x xs r' htw hdw
+      · rename_i x r' hidx
         cases hrec : scanNameTail inBr fuel r' with
         | mk t' r'' =>
           simp only [hrec, Prod.mk.injEq] at h
           obtain ⟨rfl, rfl⟩ := h
           obtain ⟨h3, h4⟩ := ih r' t' r'' hrec
-          have hsplit := takeWhile_dropWhile inBr r0
-          rw [hdw] at hsplit
-          refine ⟨?_, .index (by rw [htw]; simp) (takeWhile_all inBr r0) h4⟩
-          rw [h3] at hsplit
-          simp only [List.cons_append, List.cons.injEq, true_and]
-          rw [List.append_assoc]
-          exact hsplit
+          obtain ⟨hx1, hx2, hx3, _⟩ := scanIndex_some hidx
+          refine ⟨?_, .index hx2 hx3 h4⟩
+          rw [hx1, h3]
+          simp
       · simp only [Prod.mk.injEq] at h; obtain ⟨rfl, rfl⟩ := h; exact ⟨rfl, .nil⟩
     · simp only [Prod.mk.injEq] at h; obtain ⟨rfl, rfl⟩ := h; exact ⟨rfl, .nil⟩
 
